@@ -70,6 +70,7 @@ type kase struct {
 	HmFail    []int       `json:"hm_fail"`    // HashMap elements whose Close returns an error
 	NestedEnd []string    `json:"nested_end"` // per nested context: "" runs until stopped | "done" | "assert": ends on its own at once
 	PrePanic  bool        `json:"pre_panic"`  // a required ref parameter is missing: preRun panics, the deferred cleanup still runs
+	Sender    string      `json:"sender"`     // real cases: what a remote sender does to the local mailbox before the Stops: "" | plain | abort_retry | abort_only
 	Real      int         `json:"real"`       // >0: a context over a real FailureDetector and local TCP mailbox, Real Stops at once (oracle only)
 	SettleUs  int         `json:"settle_us"`  // how long to let released Stops reach their blocking point
 	DeadlineM int         `json:"deadline_ms"`
@@ -456,6 +457,66 @@ func realCase(k kase) (res result) {
 	case <-time.After(deadline):
 		res.Hang = "real-start"
 		return
+	}
+	// a remote sender (the real tcpMailboxesRemote resource, driven through the resource API as a sending archetype's
+	// critical sections would): write, PreCommit acknowledged, then the section aborts (another of its resources said no);
+	// it retries on the same connection and commits, or never retries; the connection stays open during the Stops
+	if k.Sender != "" {
+		remote := resources.NewTCPMailboxes(func(tla.Value) (resources.MailboxKind, string) {
+			return resources.MailboxesRemote, mboxAddr
+		}, resources.WithMailboxesDialTimeout(time.Second), resources.WithMailboxesWriteTimeout(time.Second), resources.WithMailboxesReadTimeout(time.Second))
+		defer remote.Close()
+		var z distsys.ArchetypeInterface
+		sendErr := make(chan error, 1)
+		go func() {
+			r, err := remote.Index(z, tla.MakeNumber(1))
+			if err != nil {
+				sendErr <- err
+				return
+			}
+			upToAck := func() error {
+				if err := r.WriteValue(z, tla.MakeString("hello")); err != nil {
+					return err
+				}
+				if ch := r.PreCommit(z); ch != nil {
+					return <-ch
+				}
+				return nil
+			}
+			commit := func() {
+				if ch := r.Commit(z); ch != nil {
+					<-ch
+				}
+			}
+			if err := upToAck(); err != nil {
+				sendErr <- err
+				return
+			}
+			switch k.Sender {
+			case "plain":
+				commit()
+			case "abort_retry":
+				r.Abort(z)
+				if err := upToAck(); err != nil {
+					sendErr <- err
+					return
+				}
+				commit()
+			case "abort_only":
+				r.Abort(z)
+			}
+			sendErr <- nil
+		}()
+		select {
+		case err := <-sendErr:
+			if err != nil {
+				res.Err = "sender: " + firstLine(err.Error())
+				return
+			}
+		case <-time.After(deadline):
+			res.Hang = "sender"
+			return
+		}
 	}
 	stopDone := make(chan struct{}, k.Real)
 	for i := 0; i < k.Real; i++ {
